@@ -210,6 +210,7 @@ fn main() {
         "unused" => cmd_unused(&args),
         "threads" => cmd_threads(&args),
         "values" => cmd_map(&args, |c| vec![algebra::value_case(c)]),
+        "kinds" => cmd_map(&args, |c| vec![algebra::kind_case(c)]),
         "nfn" => println!("{}", vrl::stdlib::all().len()),
         _ => {
             eprintln!("usage: vh <core|...> [--opt value]...");
